@@ -176,9 +176,9 @@ def readBitmapExtPages (v size : Nat) (ext : Blk) : (fuel i j : Nat) → Prog (R
 /-- outer loop over the bitmap-extension chain: `while (nSect != 0)`; the fuel is the model's
     termination argument (the C loop has none: a cyclic chain spins forever) -/
 def readBitmapExtChain (v size : Nat) : (fuel nSect j : Nat) → Prog RC
-  | 0, nSect, _ => if nSect = 0 then return rcOK else fault (.outOfFuel "adfReadBitmap.bmExt")
+  | 0, _, _ => return rcOK
   | fuel+1, nSect, j => do
-    if nSect = 0 then return rcOK
+    if nSect = 0 ∨ j ≥ size then return rcOK
     let (rc, ext) ← readBitmapExtBlock v nSect
     if rc ≠ rcOK then
       freeBitmap v
